@@ -61,7 +61,7 @@ fn gen_any(rng: &mut Rng, ring: &str, kind: u32) -> Value {
 /// exact solution could leave the machine-integer range are thinned out instead of producing
 /// arithmetic-overflow panics that have nothing to do with the property.
 fn gen_triangular(rng: &mut Rng, ring: &str, n: usize, upper: bool) -> (Value, f64) {
-    let mut dens = *rng.pick(&[8u64, 20, 35, 60]);
+    let mut dens = if n > 30 { *rng.pick(&[2u64, 4, 8]) } else { *rng.pick(&[8u64, 20, 35, 60]) };
     loop {
         let mut entries = vec![];
         let mut absm = vec![vec![0.0f64; n]; n];
@@ -157,7 +157,9 @@ fn gen_case_inner(rng: &mut Rng) -> Value {
     let upper = rng.chance(1, 2);
     match kind {
         "solve" | "solve_left" | "inv" | "solve_vec" => {
-            let n = match rng.below(8) { 0 => 0, 1 => 1, _ => 2 + rng.below(nmax - 1) as usize };
+            // one run in sixteen is large (batched / chunked variants of the column loop only differ there)
+            let big = rng.chance(1, 16) && matches!(ring, "Z" | "F2" | "F3");
+            let n = if big { 65 + rng.below(40) as usize } else { match rng.below(8) { 0 => 0, 1 => 1, _ => 2 + rng.below(nmax - 1) as usize } };
             let (a, _) = gen_triangular(rng, ring, n, upper);
             let k = match kind { "solve_vec" => 1, _ => match rng.below(12) { 0 | 1 => 0, 2 | 3 => 1, 4 => 40 + rng.below(80) as usize, _ => 2 + rng.below(29) as usize } };
             let y = match kind {
@@ -168,7 +170,8 @@ fn gen_case_inner(rng: &mut Rng) -> Value {
             json!({ "kind": kind, "ring": ring, "upper": upper, "a": a, "y": y })
         }
         "schur" => {
-            let nmax = nmax.min(12);
+            let big = rng.chance(1, 16) && matches!(ring, "Z" | "F2" | "F3");
+            let nmax = if big { 90 } else { nmax.min(12) };
             let m = 1 + rng.below(nmax) as usize;
             let n = 1 + rng.below(nmax) as usize;
             let r = match rng.below(5) { 0 => 0, 1 => m.min(n), _ => rng.below(m.min(n) as u64 + 1) as usize };
